@@ -1,2 +1,3 @@
 -- Root of the `ALV` library: every property file (and through them models, specs, lemmas).
 import ALV.Props.C08
+import ALV.Props.C14
